@@ -2631,6 +2631,11 @@ impl LineBuf {
 						Direction::Backward => pos += 1,
 					}
 				}
+				if verb.is_some() && dest == Dest::Before && direction == Direction::Forward && pos == self.cursor.get() {
+					// 't' to the character right next to the cursor does not move, but it is an inclusive motion:
+					// an operator takes the character under the cursor
+					return MotionKind::Inclusive((pos,pos))
+				}
 				MotionKind::Onto(pos)
 			}
 			MotionCmd(count,motion @ (Motion::ForwardChar | Motion::BackwardChar)) => {
